@@ -668,13 +668,13 @@ func (f *Composite) unpackSubfieldsByTag(data []byte) (int, string, error) {
 				}
 				// the value of the skipped element must lie within the composite
 				if fieldLength < 0 || fieldLength > len(data)-offset-read {
-					return 0, tag, fmt.Errorf("failed to skip unknown subfield %v: its length %d exceeds the remaining %d bytes", tag, fieldLength, len(data)-offset-read)
+					return 0, tag, fmt.Errorf("failed to skip unknown subfield %.6v: its length %d exceeds the remaining %d bytes", tag, fieldLength, len(data)-offset-read)
 				}
 				offset += fieldLength + read
 				continue
 			}
 
-			return 0, tag, fmt.Errorf("failed to unpack subfield %v: field not defined in Spec", tag)
+			return 0, tag, fmt.Errorf("failed to unpack subfield %.6v: field not defined in Spec", tag)
 		}
 
 		field, ok := f.subfields[tag]
